@@ -99,7 +99,7 @@ pub proof fn lemma_pow2_8(bd: u8)
 }
 // plane_ok for a freshly allocated plane
 pub proof fn lemma_new_plane_ok<T>(p: Plane<T>)
-    requires p.cfg.xorigin == 0, p.cfg.yorigin == 0, p.cfg.width <= p.cfg.stride, p.data.v@.len() == p.cfg.stride * p.cfg.height,
+    requires cfg_post(p.cfg, p.cfg.width, p.cfg.height, p.cfg.xdec, p.cfg.ydec, 0, 0), p.data.v@.len() == p.cfg.stride * p.cfg.alloc_height,
              p.data.v@.len() <= usize::MAX
     ensures plane_ok(p), origin(p.cfg) == 0
 {
@@ -151,8 +151,10 @@ def contracts():
             # established by the callers from the Rgb invariant (data.len() == width*height, checked in Rgb::new)
             'input@.len() == width * height', 'width * height <= usize::MAX',
             'config.subsampling_x < 64', 'config.subsampling_y < 64', '8 <= config.bit_depth <= 16',
-            # ASSUMPTION: the plane allocations fit the address space (see Plane::new)
-            '(width + 64) * height <= usize::MAX'],
+            # ASSUMPTION: the plane allocations fit the address space (see Plane::new); T is u8 or u16
+            '(width + 128) * height <= usize::MAX', 'width + 128 <= usize::MAX',
+            # degenerate images (width 0 with height > 0) make v_frame's PlaneIter panic inside Yuv::new for 16-bit storage
+            'width > 0 || height == 0'],
         ensures=[
             # C02/C11: requested config (after Unspecified resolution) and dimensions, plane sizes (w>>ss_x, h>>ss_y)
             'r.config == fix_spec(config, width as int, height as int)',
@@ -182,7 +184,7 @@ def contracts():
         ],
         inserts=[
             ('let chroma_width', 'before',
-             '    proof { lemma_shr_is_div(width, ss_x); lemma_shr_is_div(height, ss_y); }'),
+             '    proof { lemma_shr_is_div(width, ss_x); lemma_shr_is_div(height, ss_y); T::ax_size(); }'),
             ('let mut output', 'before',
              '''    proof {
         let cw = (width >> ss_x) as int; let ch = (height >> ss_y) as int;
@@ -191,7 +193,7 @@ def contracts():
         vstd::arithmetic::div_mod::lemma_div_basics(width as int); vstd::arithmetic::div_mod::lemma_div_basics(height as int);
         vstd::arithmetic::div_mod::lemma_div_pos_is_pos(width as int, pow2(ss_x as int));
         vstd::arithmetic::div_mod::lemma_div_pos_is_pos(height as int, pow2(ss_y as int));
-        assert((cw + 64) * ch <= (width + 64) * height) by(nonlinear_arith) requires 0 <= cw <= width, 0 <= ch <= height;
+        assert((cw + 128) * ch <= (width + 128) * height) by(nonlinear_arith) requires 0 <= cw <= width, 0 <= ch <= height;
     }'''),
             ('let y_stride', 'before',
              '''    proof {
@@ -312,6 +314,9 @@ def contracts():
                 lemma_sample_in_bounds(output.planes[2], y, x); } }
         assert(dec_ok(output, config));
         assert(chroma_size_ok(output, config));
+        if width > 0 { lemma_exact_quot(width as int, pow2(ss_x as int)); assert(width as int / pow2(ss_x as int) > 0) by(nonlinear_arith) requires (width as int / pow2(ss_x as int)) * pow2(ss_x as int) == width, width > 0, pow2(ss_x as int) > 0; }
+        else { lemma_div_bounds(0, pow2(ss_y as int)); lemma_div_bounds(height as int, pow2(ss_y as int)); assert(height as int / pow2(ss_y as int) == 0) by(nonlinear_arith) requires (height as int / pow2(ss_y as int)) * pow2(ss_y as int) <= height, height == 0, pow2(ss_y as int) > 0, 0 <= height as int / pow2(ss_y as int); }
+        assert(nondegenerate(output));
         assert(accept(output, config));
         assert forall|cy: int, cx: int| 0 <= cy < height as int / pow2(ss_y as int) && 0 <= cx < width as int / pow2(ss_x as int) implies
             #[trigger] blk_ok(output.planes[1].data.v@, output.planes[1].cfg.stride as int, input@, width as int, height as int, config, cy, cx, 1)
